@@ -1,99 +1,211 @@
 import Lemmas.Alter.Basic
+/-!
+MSSQL: the output is three independent blocks
+`[ALTER COLUMN c ty [NULL|NOT NULL]]? ++ [drop default constraint]? ++ [ADD DEFAULT d FOR c]? ++ [sp_rename]?`
+(or stops with an exception before the default block).  Each block is brought into a closed form,
+the final column is computed once for the closed form, and the property is read off attribute by
+attribute.
+-/
 namespace Lemmas.Alter
 open Model.Alter Spec.Alter
 
-theorem exact_impl_mssql_1 (table column : String) (schema : Option String)   (sd : Tri DefVal)
-    (newName : Option String) (comment : Tri String) (autoinc : Option Bool) (exType : Option Ty)
-    (exNullable : Option Bool) (exDefault : Tri DefVal) (exComment : Option String) (exAutoinc : Option Bool)
-    (usingE : Option String) (init : ColState)
-    (hp : plainDefaults ⟨table, column, schema, none, none, sd, newName, comment, autoinc, exType, exNullable,
-      exDefault, exComment, exAutoinc, usingE⟩ = true)
-    (ha : agrees ⟨table, column, schema, none, none, sd, newName, comment, autoinc, exType, exNullable,
-      exDefault, exComment, exAutoinc, usingE⟩ init = true) :
-    exactOk .mssql ⟨table, column, schema, none, none, sd, newName, comment, autoinc, exType, exNullable,
-      exDefault, exComment, exAutoinc, usingE⟩ init (implAlter .mssql ⟨table, column, schema, none, none, sd, newName,
-      comment, autoinc, exType, exNullable, exDefault, exComment, exAutoinc, usingE⟩) = true := by
-  obtain ⟨name, ty, n, dflt, c, ai⟩ := init
-  have hname : name = column := by
-    simp only [agrees, Bool.and_eq_true, beq_iff_eq] at ha
-    exact ha.1.1.1.1.1
-  subst hname
-  simp only [plainDefaults, Bool.and_eq_true, Bool.not_eq_true'] at hp
-  obtain ⟨hI, hC⟩ := hp
-  cases exType <;> cases exNullable <;> cases newName <;> cases comment <;>
-    cases sd <;> cases exDefault <;> c13_unfold
+/-- closed form of the alter block -/
+def aStmts (t : TRef) (c : String) : Option (String × Option Bool) → List Stmt
+  | some (ty, n) => [.mssqlAlter t c ty n]
+  | none => []
 
-theorem exact_impl_mssql_2 (table column : String) (schema : Option String)  (nn : Bool) (sd : Tri DefVal)
-    (newName : Option String) (comment : Tri String) (autoinc : Option Bool) (exType : Option Ty)
-    (exNullable : Option Bool) (exDefault : Tri DefVal) (exComment : Option String) (exAutoinc : Option Bool)
-    (usingE : Option String) (init : ColState)
-    (hp : plainDefaults ⟨table, column, schema, none, some nn, sd, newName, comment, autoinc, exType, exNullable,
-      exDefault, exComment, exAutoinc, usingE⟩ = true)
-    (ha : agrees ⟨table, column, schema, none, some nn, sd, newName, comment, autoinc, exType, exNullable,
-      exDefault, exComment, exAutoinc, usingE⟩ init = true) :
-    exactOk .mssql ⟨table, column, schema, none, some nn, sd, newName, comment, autoinc, exType, exNullable,
-      exDefault, exComment, exAutoinc, usingE⟩ init (implAlter .mssql ⟨table, column, schema, none, some nn, sd, newName,
-      comment, autoinc, exType, exNullable, exDefault, exComment, exAutoinc, usingE⟩) = true := by
-  obtain ⟨name, ty, n, dflt, c, ai⟩ := init
-  have hname : name = column := by
-    simp only [agrees, Bool.and_eq_true, beq_iff_eq] at ha
-    exact ha.1.1.1.1.1
-  subst hname
-  simp only [plainDefaults, Bool.and_eq_true, Bool.not_eq_true'] at hp
-  obtain ⟨hI, hC⟩ := hp
-  cases exType <;> cases exNullable <;> cases newName <;> cases comment <;>
-    cases sd <;> cases exDefault <;> c13_unfold
+/-- closed form of the default block -/
+def dStmts (t : TRef) (c : String) (dropD : Bool) (addD : Option String) : List Stmt :=
+  (if dropD then [.mssqlDropDefault t c] else []) ++
+  (match addD with
+   | some d => [.mssqlAddDefault t c d]
+   | none => [])
 
-theorem exact_impl_mssql_3 (table column : String) (schema : Option String) (t : Ty)  (sd : Tri DefVal)
-    (newName : Option String) (comment : Tri String) (autoinc : Option Bool) (exType : Option Ty)
-    (exNullable : Option Bool) (exDefault : Tri DefVal) (exComment : Option String) (exAutoinc : Option Bool)
-    (usingE : Option String) (init : ColState)
-    (hp : plainDefaults ⟨table, column, schema, some t, none, sd, newName, comment, autoinc, exType, exNullable,
-      exDefault, exComment, exAutoinc, usingE⟩ = true)
-    (ha : agrees ⟨table, column, schema, some t, none, sd, newName, comment, autoinc, exType, exNullable,
-      exDefault, exComment, exAutoinc, usingE⟩ init = true) :
-    exactOk .mssql ⟨table, column, schema, some t, none, sd, newName, comment, autoinc, exType, exNullable,
-      exDefault, exComment, exAutoinc, usingE⟩ init (implAlter .mssql ⟨table, column, schema, some t, none, sd, newName,
-      comment, autoinc, exType, exNullable, exDefault, exComment, exAutoinc, usingE⟩) = true := by
-  obtain ⟨name, ty, n, dflt, c, ai⟩ := init
-  have hname : name = column := by
-    simp only [agrees, Bool.and_eq_true, beq_iff_eq] at ha
-    exact ha.1.1.1.1.1
-  subst hname
-  simp only [plainDefaults, Bool.and_eq_true, Bool.not_eq_true'] at hp
-  obtain ⟨hI, hC⟩ := hp
-  cases exType <;> cases exNullable <;> cases newName <;> cases comment <;>
-    cases sd <;> cases exDefault <;> c13_unfold
+/-- closed form of the rename block -/
+def nStmts (t : TRef) (c : String) : Option String → List Stmt
+  | some n => [.rename t c n]
+  | none => []
 
-theorem exact_impl_mssql_4 (table column : String) (schema : Option String) (t : Ty) (nn : Bool) (sd : Tri DefVal)
-    (newName : Option String) (comment : Tri String) (autoinc : Option Bool) (exType : Option Ty)
-    (exNullable : Option Bool) (exDefault : Tri DefVal) (exComment : Option String) (exAutoinc : Option Bool)
-    (usingE : Option String) (init : ColState)
-    (hp : plainDefaults ⟨table, column, schema, some t, some nn, sd, newName, comment, autoinc, exType, exNullable,
-      exDefault, exComment, exAutoinc, usingE⟩ = true)
-    (ha : agrees ⟨table, column, schema, some t, some nn, sd, newName, comment, autoinc, exType, exNullable,
-      exDefault, exComment, exAutoinc, usingE⟩ init = true) :
-    exactOk .mssql ⟨table, column, schema, some t, some nn, sd, newName, comment, autoinc, exType, exNullable,
-      exDefault, exComment, exAutoinc, usingE⟩ init (implAlter .mssql ⟨table, column, schema, some t, some nn, sd, newName,
-      comment, autoinc, exType, exNullable, exDefault, exComment, exAutoinc, usingE⟩) = true := by
-  obtain ⟨name, ty, n, dflt, c, ai⟩ := init
-  have hname : name = column := by
-    simp only [agrees, Bool.and_eq_true, beq_iff_eq] at ha
-    exact ha.1.1.1.1.1
-  subst hname
+/-- which `ALTER COLUMN c ty [NULL|NOT NULL]` the request leads to (`none` = CommandError) -/
+def aOf (r : Req) : Option (Option (String × Option Bool)) :=
+  match r.nullable, r.type_, r.exType, r.exNullable with
+  | some n, some t, _, _ => some (some (t.name, some n))
+  | some n, none, some e, _ => some (some (e.name, some n))
+  | some _, none, none, _ => none
+  | none, some t, _, some en => some (some (t.name, some en))
+  | none, some t, _, none => some (some (t.name, none))
+  | none, none, _, _ => some none
+
+def aTy (a : Option (String × Option Bool)) (dflt : String) : String :=
+  match a with
+  | some (ty, _) => ty
+  | none => dflt
+
+def aNull (a : Option (String × Option Bool)) (dflt : Bool) : Bool :=
+  match a with
+  | some (_, n) => n.getD true
+  | none => dflt
+
+def plainText : Tri DefVal → Option String
+  | .set (.plain s) => some s
+  | _ => none
+
+def dropD (r : Req) : Bool := r.serverDefault.given && (r.exDefault.given || r.serverDefault == .drop)
+
+/-- the three blocks of `mssqlAlter` -/
+def blockA (r : Req) : Out :=
+  match mssqlFold r with
+  | .error e => Out.fail e
+  | .ok (nullable, type_, exType) =>
+    emitAll .mssql (tref r) r.column (defaultConstructs { r with
+      nullable := nullable, type_ := type_, exType := exType, newName := none,
+      serverDefault := .unset, exDefault := .drop })
+
+def blockD (r : Req) : Out :=
+  if r.serverDefault.given then
+    (if r.exDefault.given || r.serverDefault == .drop then
+       emitAll .mssql (tref r) r.column [.execDropDefault]
+     else Out.ok).andThen
+    (match r.serverDefault with
+      | .set dv => emitAll .mssql (tref r) r.column [.columnDefault (some dv)]
+      | _ => Out.ok)
+  else Out.ok
+
+def blockN (r : Req) : Out :=
+  match r.newName with
+  | some n => emitAll .mssql (tref r) r.column [.columnName n]
+  | none => Out.ok
+
+theorem mssqlAlter_blocks (r : Req) (hp : plainDefaults r = true) :
+    mssqlAlter r = (blockA r).andThen ((blockD r).andThen (blockN r)) := by
+  simp only [plainDefaults, Bool.and_eq_true, Bool.not_eq_true'] at hp
+  unfold mssqlAlter blockA blockD blockN
+  cases hf : mssqlFold r with
+  | error e => simp [Out.fail, Out.andThen]
+  | ok v =>
+    obtain ⟨n, t, e⟩ := v
+    simp only [hp.1, hp.2, Bool.or_false, Bool.not_false, Bool.and_true, Bool.false_eq_true, if_false]
+    rfl
+
+theorem blockD_eq (r : Req) (hp : plainDefaults r = true) :
+    blockD r = ⟨dStmts (tref r) r.column (dropD r) (plainText r.serverDefault), none⟩ := by
   simp only [plainDefaults, Bool.and_eq_true, Bool.not_eq_true'] at hp
   obtain ⟨hI, hC⟩ := hp
-  cases exType <;> cases exNullable <;> cases newName <;> cases comment <;>
-    cases sd <;> cases exDefault <;> c13_unfold
+  unfold blockD dStmts dropD
+  cases hs : r.serverDefault with
+  | unset => simp [Tri.given, plainText, Out.ok]
+  | drop => simp [Tri.given, plainText, Out.ok, Out.andThen, emitAll, compile]
+  | set v =>
+    cases v with
+    | plain s =>
+      cases he : r.exDefault <;>
+        simp [Tri.given, plainText, Out.ok, Out.fail, Out.andThen, emitAll, compile, renderDefault, Dialect.isMySQL]
+    | identity a s => simp [hs, isIdentity, DefVal.isIdentity] at hI
+    | computed s => simp [hs, isComputed, DefVal.isComputed] at hC
+
+theorem blockN_eq (r : Req) : blockN r = ⟨nStmts (tref r) r.column r.newName, none⟩ := by
+  unfold blockN nStmts
+  cases r.newName <;> simp [Out.ok, emitAll, compile, Dialect.isMySQL]
+
+theorem blockA_eq (r : Req) :
+    blockA r = match aOf r with
+      | none => Out.fail .commandError
+      | some a => ⟨aStmts (tref r) r.column a,
+                   if r.comment.given then some .unsupportedCompilation else none⟩ := by
+  unfold blockA aOf mssqlFold
+  cases r.nullable <;> cases r.type_ <;> cases r.exType <;> cases r.exNullable <;> cases r.comment <;>
+    simp [aStmts, defaultConstructs, emitAll, compile, Out.ok, Out.fail, Tri.given, Tri.val?, Dialect.isMySQL]
+
+/-- the final column of the closed form -/
+theorem final_blocks (s : ColState) (t : TRef) (a : Option (String × Option Bool)) (dd : Bool)
+    (ad : Option String) (nn : Option String) :
+    final s (aStmts t s.name a ++ (dStmts t s.name dd ad ++ nStmts t s.name nn)) =
+      { name := nn.getD s.name,
+        ty := aTy a s.ty,
+        nullable := aNull a s.nullable,
+        default := match ad with | some d => some (.plain d) | none => if dd then none else s.default,
+        comment := s.comment, autoinc := s.autoinc } := by
+  cases a <;> cases dd <;> cases ad <;> cases nn <;>
+    simp [aStmts, dStmts, nStmts, final, applyStmt, Stmt.col, effect, aTy, aNull]
+
+theorem final_aStmts (s : ColState) (t : TRef) (a : Option (String × Option Bool)) :
+    final s (aStmts t s.name a) =
+      { s with ty := aTy a s.ty,
+               nullable := match a with | some (_, n) => n.getD true | none => s.nullable } := by
+  cases a <;> simp [aStmts, final, applyStmt, Stmt.col, effect, aTy, aNull]
+
+theorem any_blocks (t : TRef) (c : String) (a : Option (String × Option Bool)) (dd : Bool)
+    (ad : Option String) (nn : Option String) :
+    (aStmts t c a ++ (dStmts t c dd ad ++ nStmts t c nn)).any restatesAll = false ∧
+    (aStmts t c a ++ (dStmts t c dd ad ++ nStmts t c nn)).any restatesTyNull = a.isSome := by
+  cases a <;> cases dd <;> cases ad <;> cases nn <;>
+    simp [aStmts, dStmts, nStmts, restatesAll, restatesTyNull]
+
+theorem any_aStmts (t : TRef) (c : String) (a : Option (String × Option Bool)) :
+    (aStmts t c a).any restatesAll = false ∧ (aStmts t c a).any restatesTyNull = a.isSome := by
+  cases a <;> simp [aStmts, restatesAll, restatesTyNull]
+
+/-- type and nullability: requested values are reached, unrequested ones are kept or restated
+from the stated existing value -/
+theorem ty_null_ok (r : Req) (init : ColState) (ha : agrees r init = true)
+    (a : Option (String × Option Bool)) (h : aOf r = some a) :
+    ((r.type_.isSome || (a.isSome && r.exType.isNone) ||
+        aTy a init.ty == init.ty) = true) ∧
+    ((r.nullable.isSome || (a.isSome && r.exNullable.isNone) ||
+        aNull a init.nullable == init.nullable) = true) ∧
+    ((match r.type_ with
+      | some t => aTy a init.ty == t.name
+      | none => true) = true) ∧
+    ((match r.nullable with
+      | some n => aNull a init.nullable == n
+      | none => true) = true) := by
+  simp only [agrees, Bool.and_eq_true] at ha
+  obtain ⟨⟨⟨⟨⟨-, h2⟩, h3⟩, -⟩, -⟩, -⟩ := ha
+  unfold aOf at h
+  cases hn : r.nullable <;> cases ht : r.type_ <;> cases he : r.exType <;> cases hen : r.exNullable <;>
+    simp only [hn, ht, he, hen, Option.some.injEq, reduceCtorEq] at h h2 h3 <;>
+    (try subst h) <;> simp_all [aTy, aNull]
 
 theorem exact_impl_mssql (r : Req) (init : ColState)
     (hp : plainDefaults r = true) (ha : agrees r init = true) :
     exactOk .mssql r init (implAlter .mssql r) = true := by
-  obtain ⟨table, column, schema, type_, nullable, sd, newName, comment, autoinc, exType, exNullable,
-    exDefault, exComment, exAutoinc, usingE⟩ := r
-  cases type_ <;> cases nullable
-  · exact exact_impl_mssql_1 _ _ _ _ _ _ _ _ _ _ _ _ _ _ hp ha
-  · exact exact_impl_mssql_2 _ _ _ _ _ _ _ _ _ _ _ _ _ _ _ hp ha
-  · exact exact_impl_mssql_3 _ _ _ _ _ _ _ _ _ _ _ _ _ _ _ hp ha
-  · exact exact_impl_mssql_4 _ _ _ _ _ _ _ _ _ _ _ _ _ _ _ _ hp ha
+  have hname : init.name = r.column := by
+    simp only [agrees, Bool.and_eq_true, beq_iff_eq] at ha
+    exact ha.1.1.1.1.1
+  show exactOk .mssql r init (mssqlAlter r) = true
+  rw [mssqlAlter_blocks r hp, blockD_eq r hp, blockN_eq, blockA_eq]
+  cases hA : aOf r with
+  | none => simp [Out.fail, Out.andThen, exactOk, final, keepOk_self]
+  | some a =>
+    obtain ⟨k1, k2, q1, q2⟩ := ty_null_ok r init ha a hA
+    rw [← hname]
+    cases hc : r.comment.given with
+    | true =>
+      -- ColumnComment cannot be compiled: the call raises after the alter block
+      simp only [Out.andThen, exactOk, if_true, Option.isSome_some, Bool.true_or, Bool.and_true,
+        final_aStmts, keepOk, (any_aStmts _ _ _).1, (any_aStmts _ _ _).2, Bool.false_and, Bool.false_or,
+        hc, Bool.true_or, Bool.and_eq_true, Bool.or_eq_true, beq_self_eq_true, or_true, and_true]
+      simp only [Bool.or_eq_true, Bool.and_eq_true] at k1 k2
+      exact ⟨k1, k2⟩
+    | false =>
+      simp only [Out.andThen, exactOk, final_blocks, keepOk, (any_blocks _ _ _ _ _ _).1,
+        (any_blocks _ _ _ _ _ _).2, Bool.false_and, Bool.false_or, hc, Bool.false_eq_true, if_false,
+        Option.isSome_none, requestedOk, Dialect.isMySQL, Bool.not_false, Bool.true_or,
+        Bool.and_true, beq_self_eq_true, Bool.or_true, Bool.and_eq_true]
+      refine ⟨⟨⟨k1, k2⟩, ?_⟩, ⟨⟨⟨⟨q1, q2⟩, ?_⟩, ?_⟩, ?_⟩⟩
+      · -- unrequested default is kept
+        cases hs : r.serverDefault <;> simp [Tri.given, plainText, dropD, hs]
+      · -- requested default is reached
+        simp only [plainDefaults, Bool.and_eq_true, Bool.not_eq_true'] at hp
+        cases hs : r.serverDefault with
+        | unset => rfl
+        | drop => simp [Tri.given, plainText, dropD, hs]
+        | set v =>
+          cases v with
+          | plain s => simp [plainText, defaultIs]
+          | identity a s => simp [hs, isIdentity, DefVal.isIdentity] at hp
+          | computed s => simp [hs, isComputed, DefVal.isComputed] at hp
+      · cases hnn : r.newName <;> simp [hname]
+      · cases hcm : r.comment <;> simp_all [Tri.given]
+
 end Lemmas.Alter
